@@ -38,6 +38,10 @@ type SrvGenCfg struct {
 	WMalform  int // per-mille malformed operations
 	WFlush    int
 	WGet      int
+	// GetAfterOps: per-mille chance of a complete Get right after an operations message (and one at the end)
+	GetAfterOps int
+	// BadNI: Flush / Get requests name the empty or an unknown network instance more often
+	BadNI bool
 	WClose    int
 	WElec     int // per-mille extra election announcements by elected sessions
 	BatchMax  int
@@ -206,7 +210,11 @@ func GenSrvHistory(r *rand.Rand, cfg *SrvGenCfg) []SEv {
 			continue
 		case x < 80+cfg.WFlush:
 			f := &spb.FlushRequest{}
-			switch r.IntN(8) {
+			nisel := r.IntN(8)
+			if cfg.BadNI && nisel >= 6 {
+				nisel = 3
+			}
+			switch nisel {
 			case 0:
 			case 1, 2:
 				f.NetworkInstance = &spb.FlushRequest_Name{Name: p.Known[r.IntN(len(p.Known))]}
@@ -244,7 +252,11 @@ func GenSrvHistory(r *rand.Rand, cfg *SrvGenCfg) []SEv {
 			continue
 		case x < 80+cfg.WFlush+cfg.WGet:
 			g := &spb.GetRequest{}
-			switch r.IntN(8) {
+			nisel := r.IntN(8)
+			if cfg.BadNI && nisel >= 6 {
+				nisel = 3
+			}
+			switch nisel {
 			case 0:
 			case 1, 2:
 				g.NetworkInstance = &spb.GetRequest_Name{Name: p.Known[r.IntN(len(p.Known))]}
@@ -355,7 +367,14 @@ func GenSrvHistory(r *rand.Rand, cfg *SrvGenCfg) []SEv {
 			n := 1 + r.IntN(cfg.BatchMax)
 			req, cls := genOps(c, n)
 			evs = append(evs, SEv{Kind: "msg", C: c, MsgKind: "ops", Req: req, Cls: cls})
+			if cfg.GetAfterOps > 0 && r.IntN(1000) < cfg.GetAfterOps {
+				// read back what was just programmed, before anything else changes it
+				evs = append(evs, SEv{Kind: "get", Get: &spb.GetRequest{NetworkInstance: &spb.GetRequest_All{All: &spb.Empty{}}, Aft: spb.AFTType_ALL}, GetFail: -1})
+			}
 		}
+	}
+	if cfg.GetAfterOps > 0 {
+		evs = append(evs, SEv{Kind: "get", Get: &spb.GetRequest{NetworkInstance: &spb.GetRequest_All{All: &spb.Empty{}}, Aft: spb.AFTType_ALL}, GetFail: -1})
 	}
 	return evs
 }
